@@ -28,6 +28,10 @@ inductive Ev
   | commit (op : Nat) (approve : Bool)
   | timeoutTake (w : Nat)
   | timeoutSend (w : Nat)
+  | drop                                -- the peer's connection is removed (CleanWriteApprovalCaches): timers stopped,
+                                        -- pending and tally maps forgotten. Writes here are write INSTANCES (a peer
+                                        -- that reconnects and reuses a counter sends a new instance, a new `w`); the
+                                        -- counter-keyed maps of the code are modelled in `Spine/ApprovalConn.lean`
 
 def bump (c : Cfg) (t : Option (List (Nat × Nat))) (w : Nat) : List (Nat × Nat) × Nat :=
   match t with
@@ -69,6 +73,7 @@ def step (c : Cfg) (s : St) : Ev → St
     if s.fired.contains w then
       { s with fired := s.fired.filter (· ≠ w), outcomes := s.outcomes ++ [(w, .error)] }
     else s
+  | .drop => { s with pending := [], armed := [], tally := none }
 
 def run (c : Cfg) (n : Nat) (evs : List Ev) : St := evs.foldl (step c) { nCb := n }
 
